@@ -22,6 +22,8 @@ import (
 func init() { register("schedlazy", schedLazyMain) }
 
 type slTrial struct {
+	LeftNeg int `json:"leftneg"` // unlimited trials: Left() answers that were negative
+	LeftAll int `json:"leftall"` // unlimited trials: Left() calls made
 	Ok    int   `json:"ok"`    // tokens handed out
 	End   int   `json:"end"`   // calls that returned !ok
 	Dist  int   `json:"dist"`  // distinct instants among tokens and finish times
@@ -33,6 +35,7 @@ type slTrial struct {
 
 type slBatch struct {
 	Ev     string    `json:"ev"`
+	Kind   string    `json:"kind"` // "once": once(n) drained; "unl": unlimited(1h), half the goroutines read Left()
 	N      int       `json:"n"`
 	G      int       `json:"g"`
 	Trials []slTrial `json:"trials"`
@@ -49,11 +52,19 @@ func schedLazyMain(args []string) {
 	batch := slBatch{Ev: "lazy", G: G}
 	for tr := 0; tr < *trials; tr++ {
 		n := 1 + (tr/1000)%6
-		if batch.N != n && len(batch.Trials) > 0 || len(batch.Trials) == 1000 {
+		kind := "once"
+		if (tr/1000)%3 == 2 {
+			kind = "unl"
+		}
+		if (batch.N != n || batch.Kind != kind) && len(batch.Trials) > 0 || len(batch.Trials) == 1000 {
 			w.Emit(batch)
 			batch = slBatch{Ev: "lazy", G: G}
 		}
-		batch.N = n
+		batch.N, batch.Kind = n, kind
+		if kind == "unl" {
+			batch.Trials = append(batch.Trials, unlTrial(G))
+			continue
+		}
 		s := schedule.NewOnce(int64(n))
 		var gate int32
 		var wg sync.WaitGroup
@@ -115,4 +126,73 @@ func schedLazyMain(args []string) {
 		w.Emit(batch)
 	}
 	fmt.Printf("{\"trials\":%d}\n", *trials)
+}
+
+// unlTrial: a fresh unlimited(1h) schedule that is never Start()ed; half of the goroutines call Next() once, the other
+// half read Left() a few times, all released together.  Recorded: how many Left() answers were negative, how many
+// tokens, and how far the earliest/latest token lies inside the trial's wall-clock window.
+func unlTrial(G int) slTrial {
+	s := schedule.NewUnlimited(time.Hour)
+	var gate int32
+	var wg sync.WaitGroup
+	toks := make([]time.Time, G)
+	oks := make([]bool, G)
+	negs := make([]int, G)
+	alls := make([]int, G)
+	before := time.Now()
+	for g := 0; g < G; g++ {
+		g := g
+		wg.Add(1)
+		go func() {
+			defer wg.Done()
+			for atomic.LoadInt32(&gate) == 0 {
+			}
+			if g%2 == 0 {
+				toks[g], oks[g] = s.Next()
+				return
+			}
+			for i := 0; i < 4; i++ {
+				alls[g]++
+				if s.Left() < 0 {
+					negs[g]++
+				}
+			}
+		}()
+	}
+	atomic.StoreInt32(&gate, 1)
+	wg.Wait()
+	after := time.Now()
+	t := slTrial{Dist: 1}
+	var lo, hi time.Time
+	first := true
+	for g := 0; g < G; g++ {
+		t.LeftNeg += negs[g]
+		t.LeftAll += alls[g]
+		if g%2 != 0 {
+			continue
+		}
+		if oks[g] {
+			t.Ok++
+		} else {
+			t.End++
+		}
+		if first || toks[g].Before(lo) {
+			lo = toks[g]
+		}
+		if first || toks[g].After(hi) {
+			hi = toks[g]
+		}
+		first = false
+	}
+	if d := lo.Sub(before); d < 0 {
+		t.LoNeg, t.Lo = true, []int{}
+	} else {
+		t.Lo = vt.Limbs(int64(d))
+	}
+	if d := after.Sub(hi); d < 0 {
+		t.HiNeg, t.Hi = true, []int{}
+	} else {
+		t.Hi = vt.Limbs(int64(d))
+	}
+	return t
 }
